@@ -7,6 +7,7 @@ package router
 import (
 	"crypto/tls"
 	"fmt"
+	"os"
 	"strings"
 	"testing"
 	"time"
@@ -417,13 +418,17 @@ func c03Huge(c *choice.Ctx, rep *report.R) {
 func c03LongLived(c *choice.Ctx, rep *report.R) {
 	own := env.InstallOwn(0xA5, vRace)
 	defer env.UninstallOwn()
-	kind := []string{"tcp", "quic"}[c.Choose(2, "listener")]
+	kind := []string{"tcp", "quic", "tls"}[c.Choose(3, "listener")]
 	step := []time.Duration{500 * time.Millisecond, 1500 * time.Millisecond, 1900 * time.Millisecond}[c.Choose(3, "interval")]
 	const idle = 2 * time.Second
 	n := int(4*idle/step) + 1
 	desc := fmt.Sprintf("listener=%s idle_timeout=%v one query every %v, %d queries on one connection", kind, idle, step, n)
 	fail := func(sig, msg string) {
-		rep.Violate("C03:"+kind+":long-lived:"+sig, msg+"\n  "+desc, map[string]any{"Choices": c.Choices(), "LongLived": true})
+		p := "C03"
+		if os.Getenv("VERIF_PROP") == "C13" {
+			p = "C13" // the same scenario is a part of C13: every response of a connection that stays in use is emitted as a frame
+		}
+		rep.Violate(p+":"+kind+":long-lived:"+sig, msg+"\n  "+desc, map[string]any{"Choices": c.Choices(), "LongLived": true})
 	}
 	v, err := vNewRouter(c03Config("forward"), "u1")
 	if err != nil {
@@ -436,6 +441,21 @@ func c03LongLived(c *choice.Ctx, rep *report.R) {
 	var got func(i int) (*refdns.Msg, bool)
 	var closed func() bool
 	switch kind {
+	case "tls":
+		srv := v.newTCPServer(0, idle)
+		srv.tlsConfig = &tls.Config{Certificates: []tls.Certificate{vServerCert()}}
+		tc := v.tlsClient(srv, vClientV4, vLocalV4)
+		wait()
+		send = func(i int, m *refdns.Msg) { wait(); tc.Send(refdns.Frame(m.Encode(false))) }
+		got = func(i int) (*refdns.Msg, bool) {
+			fs, _ := env.SplitFrames(tc.Received())
+			if i < len(fs) {
+				m, _ := refdns.Decode(fs[i])
+				return m, true
+			}
+			return nil, false
+		}
+		closed = func() bool { return tc.sc.done || tc.sc.impl.IsClosed() }
 	case "tcp":
 		sc := v.tcpClient(v.newTCPServer(0, idle), vClientV4, vLocalV4)
 		send = func(i int, m *refdns.Msg) { sc.SendMsg(m) }
@@ -840,7 +860,7 @@ func TestVerifC03(t *testing.T) {
 	rep.Rule = fmt.Sprintf("E3: real router (run()) with scripted upstream in a synctest bubble; full product listener seam %v x %d queries (all QR x opcode{0,1,2,15} x RD x QDCOUNT{0,1,2}; flag/class/type/case/OPT/extra-record variants) x rule outcome %v x upstream outcome %v (only when forwarded); "+
 		"observed at t=0, 6s, 6.05s, 20s on the exact virtual clock; oracle: exactly one response, by 6s+50ms, id/opcode/RD copied, QR=RA=1, <=1 question equal to the first question, rcode per reference decision table; ownership audit; "+
 		"plus, on every seam, a query advertising 65535 octets whose upstream answer is composed (listener encoding measured by two probes) so that the complete response is exactly 65500..65535 octets, one by one: exactly one well-formed response within 6.05 s, and an ordinary query afterwards is answered too; 2..3 queries arriving in one read on the tcp and gnet handlers, answered in either order: one matching response each; "+
-		"plus, on the tcp and quic connection handlers with idle_timeout 2 s, one connection kept in use for four idle timeouts with a query every {0.5, 1.5, 1.9} s: every query answered, connection never closed under the client; "+
+		"plus, on the tcp, tls (DoT over crypto/tls) and quic connection handlers with idle_timeout 2 s, one connection kept in use for four idle timeouts with a query every {0.5, 1.5, 1.9} s: every query answered, connection never closed under the client; "+
 		"plus 65576 sequential queries through the real pipelined transport (more than one connection's id space): each gets its response",
 		seams, len(queries), c03Rules, c03Ups)
 	huge, longLived, many, pair := false, false, false, false
@@ -848,6 +868,11 @@ func TestVerifC03(t *testing.T) {
 		var x struct{ Huge, LongLived, Many, Pair bool }
 		rp.Decode(&x)
 		huge, longLived, many, pair = x.Huge, x.LongLived, x.Many, x.Pair
+	}
+	if os.Getenv("VERIF_PROP") == "C13" && report.ReplayFile() == nil {
+		st := runExplore(t, rep, -1, func(c *choice.Ctx) { c03LongLived(c, rep) })
+		rep.Count("executions_long_lived", st.Executions)
+		return
 	}
 	if !huge && !longLived && !many && !pair {
 		st := runExplore(t, rep, -1, func(c *choice.Ctx) { c03Scenario(c, rep, queries) })
